@@ -3,7 +3,7 @@ CONSTANT CmrN = 8
 CONSTANT N = 4
 CONSTANT Ops <- Ops_human
 CONSTANT EmitMod = 1
-CONSTANT TyDepth = 2
+CONSTANT TyDepth = 3
 INVARIANT NamesOk
 INVARIANT RoundTripInv
 INVARIANT ProgramInv
@@ -14,4 +14,5 @@ INVARIANT DevCmr
 INVARIANT DevOpt
 INVARIANT TypeInv
 INVARIANT Emit
+INVARIANT EmitType
 CHECK_DEADLOCK FALSE
